@@ -799,6 +799,10 @@ class Dict(dict, base.Symbolic, pg_typing.CustomTyping):
     if base.treats_as_sealed(self):
       raise base.WritePermissionError('Cannot clear a sealed Dict.')
     value_spec = self._value_spec
+    if value_spec:
+      # Refuse before anything is removed if the schema does not accept the
+      # cleared dict (e.g. required fields without default).
+      value_spec.apply({}, allow_partial=base.accepts_partial(self))
     self._value_spec = None
     old_values = list(self.sym_values())
     super().clear()
